@@ -343,7 +343,12 @@ async fn run_case(case: &Case, kfs: &KnownFindings, backend: Backend) -> Result<
         }
     }
     // restart on the same directory and read back
-    let mut proc2 = ServerProc::spawn(&dir, &sock, backend.mode, &env).map_err(|e| Failure::new("c18.respawn", "server restarts on the data directory", e).sig(json!({"obs": "c18.respawn"})))?;
+    let mut proc2 = ServerProc::spawn(&dir, &sock, backend.mode, &env).map_err(|e| {
+        // "spawn: ..." = the operating system could not start the process at all (e.g. the harness
+        // binary was replaced while the check was running): an accident of the environment
+        let sig = if e.starts_with("spawn:") { json!({"obs": "timeout"}) } else { json!({"obs": "c18.respawn"}) };
+        Failure::new("c18.respawn", "server restarts on the data directory", e).sig(sig)
+    })?;
     let mut s2 = Session::connect(&sock).await.map_err(|e| Failure::new("c18.connect", "welcome", e))?;
     let got = read_state(&mut s2).await;
     proc2.kill();
